@@ -183,7 +183,7 @@ def run(chk):
     # ---- float search: adversarial widths ------------------------------------------------------------------------------------
     F = 600 if chk.quick else 20000
     for i in range(F):
-        w = rng.choice([0.1, 0.2, 0.3, 0.7, 0.05, 1.1, 2.3, 0.9, 1e-3, round(rng.uniform(0.01, 5), rng.choice([1, 2, 3]))])
+        w = rng.choice([0.1, 0.2, 0.3, 0.7, 0.05, 1.1, 2.3, 0.9, 1e-3, max(round(rng.uniform(0.01, 5), rng.choice([1, 2, 3])), 1e-3)])
         k = rng.randint(1, 40)
         mx = k * w if rng.random() < 0.7 else rng.uniform(0.1, 50)
         rows = [(mx, rng.uniform(-3, 3), 1.0)] + [(rng.uniform(0, mx), rng.uniform(-3, 3), rng.choice([0.5, 1.0])) for _ in range(rng.randint(0, 4))]
